@@ -306,6 +306,84 @@ def case_ancient(col, p):
     col.distinct('nontrivial', ('ancient', fn, frac, sample_other, p['mig'], bool(p.get('pre_epoch'))))
 
 
+def case_size_cut(col, p):
+    """ONE epoch of deme A with a constant / exponential / linear size function, cut into three or four integration pieces by events of other
+    demes (B branches off, C branches off, a pulse or a migration change), vs the native program that integrates the same global size
+    function piece by piece"""
+    import dadi
+    import demes
+    from dadi import PhiManip as PM, Integration as I
+    pts = 12
+    xx = dadi.Numerics.default_grid(pts)
+    fn, event = p['function'], p['third_event']
+    Tpre = 0.05
+    cuts = [0.03, 0.05, 0.04, 0.06] if event != 'none' else [0.03, 0.05, 0.04]
+    Ttot = sum(cuts)
+    a, z = 0.6, 2.2
+
+    def size_at(t):
+        if fn == 'constant':
+            return a
+        if fn == 'exponential':
+            return a * (z / a) ** (t / Ttot)
+        return a + (z - a) * t / Ttot
+    gen = lambda T: T * 2 * N0
+    tB, tC = Ttot - cuts[0], Ttot - cuts[0] - cuts[1]
+    tE = tC - cuts[2] if event != 'none' else None
+    b = demes.Builder(time_units='generations')
+    b.add_deme('anc', epochs=[dict(start_size=N0, end_time=gen(Tpre + Ttot)), dict(start_size=1.4 * N0, end_time=gen(Ttot))])
+    ep = dict(start_size=a * N0, end_size=(a if fn == 'constant' else z) * N0, end_time=0)
+    if fn != 'constant':
+        ep['size_function'] = fn
+    b.add_deme('A', ancestors=['anc'], epochs=[ep])
+    b.add_deme('B', ancestors=['A'], start_time=gen(tB), epochs=[dict(start_size=0.8 * N0, end_time=0)])
+    b.add_deme('C', ancestors=['A'], start_time=gen(tC), epochs=[dict(start_size=0.5 * N0, end_time=0)])
+    if event == 'pulse':
+        b.add_pulse(sources=['B'], dest='C', proportions=[0.25], time=gen(tE))
+    elif event == 'migration':
+        b.add_migration(demes=['B', 'C'], rate=1.5 / (2 * N0), start_time=gen(tE), end_time=0)
+    g = b.resolve()
+    info = dict(p, kind='size_cut')
+    try:
+        got = sfs(g, ['A', 'B', 'C'], [2, 2, 2], pts)
+    except Exception as e:
+        col.violation('C16:Demes.SFS:size_function_cut:%s:raises' % fn, info, '%s: %s' % (type(e).__name__, str(e)[:300]))
+        return
+    col.tick(transitions=1)
+
+    def native():
+        phi = PM.phi_1D(xx)
+        phi = I.one_pop(phi, xx, Tpre, nu=1.4)
+        t0 = 0.0
+        f = (lambda off: (lambda t: size_at(off + t))) if fn != 'constant' else (lambda off: a)
+        phi = I.one_pop(phi, xx, cuts[0], nu=f(t0))
+        t0 += cuts[0]
+        phi = PM.phi_1D_to_2D(xx, phi)
+        phi = I.two_pops(phi, xx, cuts[1], nu1=f(t0), nu2=0.8)
+        t0 += cuts[1]
+        phi = PM.phi_2D_to_3D_split_1(xx, phi)
+        phi = I.three_pops(phi, xx, cuts[2], nu1=f(t0), nu2=0.8, nu3=0.5)
+        t0 += cuts[2]
+        if event == 'pulse':
+            phi = PM.phi_3D_admix_1_and_2_into_3(phi, 0.0, 0.25, xx, xx, xx)
+            phi = I.three_pops(phi, xx, cuts[3], nu1=f(t0), nu2=0.8, nu3=0.5)
+        elif event == 'migration':
+            phi = I.three_pops(phi, xx, cuts[3], nu1=f(t0), nu2=0.8, nu3=0.5, m23=1.5, m32=1.5)
+        return np.asarray(dadi.Spectrum.from_phi(phi, [2, 2, 2], [xx, xx, xx], mask_corners=False).data)
+    ref = native()
+    err = relerr(got, ref)
+
+    def small():
+        return relerr(with_tf(1e-4, lambda: sfs(g, ['A', 'B', 'C'], [2, 2, 2], pts)), with_tf(1e-4, native))
+    ok, e2 = agree_or_ladder(err, small)
+    if not ok:
+        col.violation('C16:Demes.SFS:size_function_cut:%s' % fn, info, {'relerr': err, 'relerr_small_step': e2})
+    else:
+        col.observe('size_cut', err / 1e-7)
+    col.tick(states=1, traces=1)
+    col.distinct('nontrivial', ('size_cut', fn, event))
+
+
 def case_yaml(col, p):
     """the graphs shipped with the suite: invariance under unit conversion, rescaling of the reference size and deme order"""
     import dadi
@@ -368,7 +446,7 @@ def case_yaml(col, p):
     col.distinct('nontrivial', ('yaml', p['file']))
 
 
-CASES = {'program': case_program, 'ancient': case_ancient, 'yaml': case_yaml}
+CASES = {'program': case_program, 'ancient': case_ancient, 'size_cut': case_size_cut, 'yaml': case_yaml}
 
 
 def _dispatch(col, case):
@@ -438,6 +516,9 @@ def run(ctx):
                 for mig in (False, True):
                     for pre in (False, True):
                         cases.append({'kind': 'ancient', 'function': fn, 'frac': frac, 'sample_other': other, 'mig': mig, 'pre_epoch': pre})
+    for fn in ('constant', 'exponential', 'linear'):
+        for ev in ('none', 'pulse', 'migration'):
+            cases.append({'kind': 'size_cut', 'function': fn, 'third_event': ev})
     yamls = [('bottleneck.yaml', ['our_population'], [5], 12), ('two_epoch.yaml', ['deme0'], [6], 12), ('zigzag.yaml', ['generic'], [6], 12),
              ('gutenkunst_ooa.yaml', ['YRI', 'CEU', 'CHB'], [3, 2, 2], 10), ('linear_size_function_example.yaml', ['pop_1', 'pop_2'], [3, 4], 12),
              ('offshoots.yaml', ['ancestral', 'offshoot1', 'offshoot2'], [3, 2, 2], 10), ('browning_america.yaml', ['AFR', 'EUR', 'ADMIX'], [2, 2, 3], 8)]
